@@ -23,8 +23,9 @@ type pairCase struct {
 
 func genPair(t *rapid.T) pairCase {
 	ks := []string{"box", "octa", "ico1"}
+	dir := gen.Vec3(t, 1, "dir").Add(kit.V3{0.001, 0.002, 0.003})
 	return pairCase{A: rapid.SampledFrom(ks).Draw(t, "a"), B: rapid.SampledFrom(ks).Draw(t, "b"),
-		Scale: gen.LogF(t, 0.2, 2, "scale"), Off: gen.Vec3(t, 2.5, "off"),
+		Scale: gen.LogF(t, 0.1, 5, "scale"), Off: dir.Unit().Scale(gen.LogF(t, 0.02, 4, "dist")),
 		Rot: [3]float64{gen.F(t, -3.2, 3.2, "rz"), gen.F(t, -3.2, 3.2, "ry"), gen.F(t, -3.2, 3.2, "rx")}}
 }
 
